@@ -149,7 +149,7 @@ fn main() {
                 };
                 scen::graph_scenario(i, &mut srng, &o, family)
             }
-            "doc" | "doctext" | "docinv" | "histdoc" | "reload" | "rollback" | "iso" | "diff" | "patch" | "ids" | "idshi" | "migrate" | "badargs" | "isorich" | "serde" | "bulk" => {
+            "doc" | "doctext" | "docinv" | "histdoc" | "reload" | "rollback" | "iso" | "diff" | "patch" | "ids" | "idshi" | "migrate" | "badargs" | "isorich" | "serde" | "bulk" | "anon" => {
                 if family == "isorich" {
                     amverif::proj::set_rich(true);
                 }
@@ -167,6 +167,10 @@ fn main() {
                     prof.texts = true;
                     prof.unicode = i % 2 == 0;
                     prof.max_objs = 12;
+                }
+                if family == "anon" {
+                    prof.stringy = i % 2 == 0;
+                    prof.texts = true;
                 }
                 if family == "serde" {
                     prof.stringy = i % 2 == 0;
@@ -207,7 +211,7 @@ fn main() {
                 };
                 scen::graph_scenario(i, &mut srng, &o, family)
             }
-            "marks" | "marksinv" | "isomarks" | "textenc" | "textconf" | "grapheme" | "cursor" | "cursortext" => {
+            "marks" | "marksinv" | "isomarks" | "textenc" | "textconf" | "grapheme" | "cursor" | "cursortext" | "anontext" => {
                 use serde_json::json;
                 amverif::proj::set_rich(true);
                 let mut prof = Profile::all();
@@ -228,6 +232,9 @@ fn main() {
                     prof.lists = false;
                     prof.maps = false;
                     prof.marks = family != "cursortext";
+                    if family == "anontext" {
+                        amverif::proj::set_rich(false);
+                    }
                     prof.unicode = !family.contains("marks");
                     if family == "marksinv" {
                         prof.invalid_pct = 25;
